@@ -38,6 +38,7 @@ const (
 
 	stringOSPathSeparator = string(os.PathSeparator)
 	// This has to be with "/" instead of os.PathSeparator as we use this on normalized paths
+	normalizedRelPathJumpContext       = ".."
 	normalizedRelPathJumpContextPrefix = "../"
 )
 
